@@ -28,7 +28,8 @@ def parse_population(d, i, dp, ip, contact=1):
                 cp = tuple(i[ip:ip + 3]); ip += 3
             else:
                 cp = (0, -1, -1)        # only contact model 1 stores (cell, node) couplings in the nodes
-            nodes.append({'used': used, 'pos': pos, 'coupled': cp})
+            fzero = i[ip]; ip += 1
+            nodes.append({'used': used, 'pos': pos, 'coupled': cp, 'force_zero': fzero})
         faces = []
         for f in range(nf):
             used, ft, owner_id, owner_ok = i[ip:ip + 4]; ids = tuple(i[ip + 4:ip + 7]); ip += 7
@@ -42,6 +43,9 @@ def population_problems(cells, nft_of_type, seen_ids, step, check_couplings=True
     if len(set(ids)) != len(ids): probs.append('duplicate persistent cell ids %r' % (ids,))
     for k, c in enumerate(cells):
         if c['local_id'] != k: probs.append('cell at list position %d carries index %d' % (k, c['local_id']))
+        if step >= 1 and c['type'] not in (1, 4):        # ECM and static cells are not integrated and keep their forces
+            left = [n for n, nd in enumerate(c['nodes']) if nd['used'] and not nd.get('force_zero', 1)]
+            if left: probs.append('%d node(s) of cell %d (e.g. node %d) still carry a force after the iteration: they were not integrated (a coupling designated the wrong cell or no cell)' % (len(left), k, left[0]))
         for n, nd in enumerate(c['nodes']):
             if not nd['used']: continue
             has, pc, pn = nd['coupled']
